@@ -690,7 +690,9 @@ def execNode : Nat → Node → XM Unit
       else
         let parentV : Val := if isLoopRecord parent then parent else .nilptr
         let child := childOf fr
-        withFrame { child with priv := child.priv.set b!"forloop" (loopRecord 0 0 0 0 true false parentV) } do
+        -- the loop's own record is installed per iteration; the iterable and the
+        -- empty branch still see the enclosing loop's forloop
+        withFrame child do
           let o ← eval fuel obj
           let items := iterItems o.v reversed sorted
           if items.length == 0 then
